@@ -100,6 +100,11 @@ func c12Rules(p *core.Prog, r *core.Run) {
 	r.Analysed(funcNames(p, cons)...)
 	assertOK := func(ta *ssa.TypeAssert) (bool, string) { return c12Assert(p, ta, table) }
 	indexSafetyWith(p, r, "C12.T2", append(append([]*ssa.Function{}, scope...), cons...), 8, assertOK)
+	// (the resolver's assertions rest on "records asked for as X carry X's Go
+	// type": the lookup hands back only records of the type it was asked for)
+	if noc := p.Func(Ech, "(*Resolver).resolveOneNoCache"); noc != nil {
+		c14OwnerFilter(p, r, noc, "C12.T4.asked")
+	}
 
 	// --- T3
 	c04ParserDiscipline(p, r, "C12.T3", scope, map[string]bool{"dns.ErrDecodeError": true})
